@@ -39,10 +39,11 @@ type regOp struct {
 	Thr       int      `json:"thr,omitempty"`
 	CloseErr  bool     `json:"close_fails,omitempty"`
 	ReopenErr bool     `json:"reopen_fails,omitempty"`
-	FailNode  string   `json:"fail_node,omitempty"`      // reopen: label of the node object told to fail
-	Wrap      int      `json:"wrapped,omitempty"`        // regnode: levels of NodeUnwrapper wrapping
-	SameObj   bool     `json:"same_instance,omitempty"`  // regnode: re-register the very node instance that is registered now
-	Foreign   string   `json:"foreign_option,omitempty"` // an option of the OTHER kind (node option on a pipeline call, or vice versa): must be ignored
+	FailNode  string   `json:"fail_node,omitempty"`        // reopen: label of the node object told to fail
+	Wrap      int      `json:"wrapped,omitempty"`          // regnode: levels of NodeUnwrapper wrapping
+	SameObj   bool     `json:"same_instance,omitempty"`    // regnode: re-register the very node instance that is registered now
+	Foreign   string   `json:"foreign_option,omitempty"`   // an option of the OTHER kind (node option on a pipeline call, or vice versa): must be ignored
+	Alias     string   `json:"same_instance_as,omitempty"` // regnode: register the very node instance that is registered under this OTHER id
 }
 
 func (o regOp) String() string {
@@ -54,6 +55,9 @@ func (o regOp) String() string {
 		}
 		if o.Wrap == 3 {
 			s += ",by-value node of a non-comparable type"
+		}
+		if o.Alias != "" {
+			s += fmt.Sprintf(",the instance registered as %q", o.Alias)
 		}
 		if o.Policy != "" {
 			s += "," + o.Policy
@@ -195,6 +199,8 @@ func (w *regWorld) apply(op regOp) (ms []mismatch, failed bool) {
 		}
 		if cur, ok := w.model.nodes[op.ID]; ok && op.SameObj && op.Wrap == 0 && w.regd[op.ID] == el.Node(cur.obj) {
 			obj = cur.obj // the very same instance, possibly with another policy
+		} else if cur, ok := w.model.nodes[op.Alias]; ok && op.Alias != "" && op.Wrap == 0 && !op.CloseErr && w.regd[op.Alias] == el.Node(cur.obj) {
+			obj = cur.obj // one node value under two ids: in-use accounting is per id
 		} else {
 			w.objs = append(w.objs, obj)
 		}
@@ -281,10 +287,10 @@ func (w *regWorld) apply(op regOp) (ms []mismatch, failed bool) {
 		if got != want {
 			add("rpan-result", fmt.Sprintf("got=%v", got), "%s returned %v (err=%v), model expects %v", op, got, err, want)
 		}
-		wantClosed := map[*recNode]bool{}
+		wantClosed := map[*recNode]int{}
 		anyCloseErr := false
 		for _, o := range closed {
-			wantClosed[o] = true
+			wantClosed[o]++ // more than once: the instance was registered under several of the removed ids
 			if o.CloseErr != nil {
 				anyCloseErr = true
 			}
@@ -292,9 +298,9 @@ func (w *regWorld) apply(op regOp) (ms []mismatch, failed bool) {
 		for _, o := range w.objs {
 			d := o.Closes - before[o]
 			switch {
-			case wantClosed[o] && d != 1:
-				add("rpan-close", fmt.Sprintf("closes=%d", d), "%s: node object %s closed %d times, expected exactly once (no remaining pipeline lists it)", op, o.Label, d)
-			case !wantClosed[o] && d != 0:
+			case wantClosed[o] > 0 && d != wantClosed[o]:
+				add("rpan-close", fmt.Sprintf("closes=%d", d), "%s: node object %s closed %d times, expected exactly %d (once per removed id it is registered under; no remaining pipeline lists it)", op, o.Label, d, wantClosed[o])
+			case wantClosed[o] == 0 && d != 0:
 				add("rpan-close", "unexpected", "%s: node object %s closed %d times although it must stay (still listed, or not part of the pipeline)", op, o.Label, d)
 			}
 		}
@@ -600,8 +606,11 @@ func runRegistrySeq(rc *RunCtx, prop string) { runRegistrySeqOps(rc, prop, nil) 
 func runRegistrySeqOps(rc *RunCtx, prop string, fixed []regOp) {
 	tp := rc.Tape
 	sim := rc.Sim
-	types := []string{"ta", "tb"}
-	pids := []string{"p0", "p1 ", "\tp2"} // ids are opaque: surrounding white space belongs to the id
+	// event types and pipeline ids are opaque strings: surrounding white space belongs to them, and a pipeline
+	// id is unique within its event type only ("ta" + "p/0" and "ta/p" + "0" are two pipelines, whatever
+	// separator a key made of both might use)
+	types := []string{"ta", "ta/p"}
+	pids := []string{"p/0", "0", "p1 "}
 	var ids []string
 	idKind := map[string]int{}
 	switch prop {
@@ -721,6 +730,9 @@ func runRegistrySeqOps(rc *RunCtx, prop string, fixed []regOp) {
 			}
 			if (prop == "C06" || prop == "C20") && tp.Choose(4, "wrap") == 0 {
 				o.Wrap = 1 + tp.Choose(3, "wraplevels") // 3: a by-value node of a non-comparable type
+			}
+			if prop == "C06" && o.Wrap == 0 && !o.CloseErr && tp.Choose(5, "alias") == 0 {
+				o.Alias = ids[tp.Choose(len(ids), "aliasof")]
 			}
 			if (prop == "C07" || prop == "C05") && tp.Choose(4, "sameobj") == 0 {
 				o.SameObj = true
